@@ -170,6 +170,40 @@ func WithAnon(fn *ssa.Function) []*ssa.Function {
 
 // ---------- constants ----------
 
+// capturedCell: the enclosing function's cell behind a free variable of a closure (nil if v is
+// not a free variable or the binding is not a local cell).
+func capturedCell(v ssa.Value) *ssa.Alloc {
+	fv, ok := v.(*ssa.FreeVar)
+	if !ok || fv.Parent() == nil || fv.Parent().Parent() == nil {
+		return nil
+	}
+	cl := fv.Parent()
+	idx := -1
+	for i, x := range cl.FreeVars {
+		if x == fv {
+			idx = i
+		}
+	}
+	if idx < 0 {
+		return nil
+	}
+	var cell *ssa.Alloc
+	for _, b := range cl.Parent().Blocks {
+		for _, in := range b.Instrs {
+			mc, ok := in.(*ssa.MakeClosure)
+			if !ok || mc.Fn != ssa.Value(cl) || idx >= len(mc.Bindings) {
+				continue
+			}
+			al, ok := mc.Bindings[idx].(*ssa.Alloc)
+			if !ok || (cell != nil && cell != al) {
+				return nil
+			}
+			cell = al
+		}
+	}
+	return cell
+}
+
 func ConstInt(v ssa.Value) (int64, bool) {
 	switch c := v.(type) {
 	case *ssa.Const:
@@ -194,6 +228,27 @@ func ConstInt(v ssa.Value) (int64, bool) {
 		return ConstInt(c.X)
 	case *ssa.ChangeType:
 		return ConstInt(c.X)
+	case *ssa.UnOp:
+		// a captured local that holds one constant for its whole life (a limit that was a literal
+		// and became a local of the enclosing function, e.g. when a helper taking it as a
+		// parameter is written out in its caller): the cell has exactly one store, of a constant
+		if c.Op == token.MUL {
+			if cell := capturedCell(c.X); cell != nil && cell.Referrers() != nil {
+				var only ssa.Value
+				n := 0
+				for _, rf := range *cell.Referrers() {
+					if st, ok := rf.(*ssa.Store); ok && st.Addr == ssa.Value(cell) {
+						n++
+						only = st.Val
+					}
+				}
+				if n == 1 {
+					if _, isC := only.(*ssa.Const); isC {
+						return ConstInt(only)
+					}
+				}
+			}
+		}
 	case *ssa.BinOp:
 		// go/ssa folds constant expressions but not operations on locals that hold constants
 		x, okx := ConstInt(c.X)
@@ -284,6 +339,17 @@ func valStr(v ssa.Value) string {
 		return x.Op.String() + valStr(x.X)
 	}
 	return v.Name() + ":" + strings.TrimPrefix(fmt.Sprintf("%T", v), "*ssa.")
+}
+
+// rawFieldName: the declared name, aliases not applied.
+func rawFieldName(t types.Type, i int) string {
+	if p, ok := t.Underlying().(*types.Pointer); ok {
+		t = p.Elem()
+	}
+	if s, ok := t.Underlying().(*types.Struct); ok && i < s.NumFields() {
+		return s.Field(i).Name()
+	}
+	return fmt.Sprintf("f%d", i)
 }
 
 func fieldName(t types.Type, i int) string {
@@ -733,6 +799,12 @@ func FactIsErrNil(f Fact, isErrOf func(v ssa.Value) bool) bool {
 // ResultOf reports whether v is result #idx of call (idx < 0: the call's only result),
 // looking through phis whose other incoming values are nil constants is NOT done here.
 func ResultOf(v ssa.Value, call ssa.Value, idx int) bool {
+	return resultOfSeen(v, call, idx, map[*ssa.Phi]bool{})
+}
+
+// resultOfSeen: phis of a loop refer to each other; a phi met again on the way contributes
+// nothing new (it neither is the result nor disproves it).
+func resultOfSeen(v ssa.Value, call ssa.Value, idx int, seen map[*ssa.Phi]bool) bool {
 	if v == call && idx <= 0 {
 		if t, ok := call.Type().(*types.Tuple); ok && t.Len() > 1 {
 			return false
@@ -745,6 +817,10 @@ func ResultOf(v ssa.Value, call ssa.Value, idx int) bool {
 	// a merge of that result with zero values only (the shape an inlined helper's early error
 	// returns leave: `return nil, nil, err` next to `return f(...)`)
 	if ph, ok := v.(*ssa.Phi); ok {
+		if seen[ph] {
+			return false
+		}
+		seen[ph] = true
 		hit := false
 		for _, e := range ph.Edges {
 			switch {
@@ -753,9 +829,14 @@ func ResultOf(v ssa.Value, call ssa.Value, idx int) bool {
 			case resultOfNoPhi(e, call, idx):
 				hit = true
 			default:
-				if p2, ok := e.(*ssa.Phi); ok && p2 != ph && ResultOf(p2, call, idx) {
-					hit = true
-					continue
+				if p2, ok := e.(*ssa.Phi); ok && p2 != ph {
+					if seen[p2] {
+						continue // part of the same cycle: decided by the other edges
+					}
+					if resultOfSeen(p2, call, idx, seen) {
+						hit = true
+						continue
+					}
 				}
 				return false
 			}
@@ -1131,6 +1212,17 @@ func FieldRef(v ssa.Value) (typ, field string, base ssa.Value, ok bool) {
 		t := x.X.Type()
 		if p, ok2 := t.Underlying().(*types.Pointer); ok2 {
 			t = p.Elem()
+		}
+		// a field that was moved into a sub-struct held by value: owner.sub.field is the
+		// audited tree's owner.oldField
+		if inner, isF := x.X.(*ssa.FieldAddr); isF && len(nestedFieldAlias) > 0 {
+			if old, ok3 := NestedFieldAlias(inner.X.Type(), rawFieldName(inner.X.Type(), inner.Field), rawFieldName(x.X.Type(), x.Field)); ok3 {
+				ot := inner.X.Type()
+				if p, ok4 := ot.Underlying().(*types.Pointer); ok4 {
+					ot = p.Elem()
+				}
+				return TypeName(ot), old, inner.X, true
+			}
 		}
 		return TypeName(t), fieldName(x.X.Type(), x.Field), x.X, true
 	case *ssa.Field:
